@@ -256,9 +256,46 @@ func checkRace(c raceCase) evid.Outcome {
 	return evid.Outcome{NonTrivial: regs >= 1 && decodes >= 1, Class: fmt.Sprintf("goroutines=%d", len(c.Lists))}
 }
 
+// firstUse: all goroutines run the SAME list at the same time, as the very first thing the process does with the
+// library: whatever the library initialises lazily or records "the first time it sees" something (an unknown
+// proprietary CID, a band name, a key) is then touched by all of them at once. The generated lists that follow mostly
+// meet such state after it has settled.
+func firstUse() raceCase {
+	var l []raceOp
+	key := evid.Hex{1, 2, 3, 4, 5, 6, 7, 8, 9, 10, 11, 12, 13, 14, 15, 16}
+	for i := 0; i < 32; i++ {
+		for _, mt := range []byte{ref.MTUnconfUp, ref.MTUnconfDown} {
+			f := ref.Frame{MType: mt, DevAddr: 0x01020304, FCnt: uint32(i), FPort: -1, FOpts: []byte{0xe0 + byte(i), 0xc0 + byte(i)}}
+			l = append(l, raceOp{Op: "decode", Frame: f.Encode()})
+			g := ref.Frame{MType: mt + 2, DevAddr: 0x01020304, FCnt: uint32(i), FPort: 0, FRM: []byte{0xff - byte(i), 0x02, 0xdf - byte(i)}}
+			l = append(l, raceOp{Op: "decode", Frame: g.Encode()})
+		}
+	}
+	for cid := 0; cid < 0x20; cid++ {
+		l = append(l, raceOp{Op: "lookup", CID: byte(cid), Uplink: cid%2 == 0})
+	}
+	for _, b := range bandNames {
+		l = append(l, raceOp{Op: "band", Band: string(b)})
+	}
+	app := ref.Frame{MType: ref.MTConfUp, DevAddr: 0x26011f2a, FCnt: 70000, FPort: 7, FRM: []byte{1, 2, 3, 4, 5, 6, 7, 8, 9, 10, 11, 12, 13, 14, 15, 16, 17}, FOpts: []byte{0x02}}
+	l = append(l, raceOp{Op: "mic", Frame: app.Encode(), Key: key}, raceOp{Op: "crypt", Frame: app.Encode(), Key: key}, raceOp{Op: "netid", Key: key})
+	c := raceCase{}
+	for g := 0; g < 8; g++ {
+		c.Lists = append(c.Lists, l)
+	}
+	return c
+}
+
 func TestRace(t *testing.T) {
 	r := evid.Begin(t, "C10")
 	defer r.Finish()
+	evid.RunManual(r, t, "race-first-use", "exhaustive",
+		"-race build, first thing in the process: 8 goroutines released together run the SAME fixed list - decode data frames (all four message types) whose FOpts / port-0 payload carry 128 different proprietary CIDs nobody registers, GetMACPayloadAndSize for 32 CIDs, GetConfig for every band, set / validate a MIC, encrypt / decrypt, NetID algebra with one key - so that anything the library sets up lazily or notes on first sight is met by all of them at once. Oracle as in race-oplists (results equal the list run alone; race-detector reports become violations).",
+		true, checkRace, func(m *evid.Manual[raceCase]) {
+			if r.Shard == 0 {
+				m.Eval(firstUse())
+			}
+		})
 	evid.Rapid(r, t, "race-oplists",
 		"rapid, -race build: 2..8 goroutines each run a generated list of 3..14 operations (decode + command decode, set/validate MIC, encrypt/decrypt - two thirds of them with one of two key VALUES shared by all goroutines -, GetMACPayloadAndSize, RegisterProprietaryMACCommand on goroutine-owned CIDs, NetID / DevAddr prefix algebra, decoding frames and single MAC commands from read-only buffers SHARED by all goroutines without copying, band GetConfig + mutations on a local instance, yields) started together; each goroutine's results must equal the same list run alone, and any race-detector report in the process output is reported as a violation by the driver (the detector flags an unsynchronised access pair whenever both execute, not only when they collide). Non-trivial: at least one registration concurrent with a decode.",
 		1500, 60000, genRace, checkRace)
